@@ -8,6 +8,7 @@ import ketama
 import metrics
 import lin
 import orca
+import pool
 
 CHECKS = {
     "C01": orca.check,
@@ -15,10 +16,12 @@ CHECKS = {
     "C03": lin.check_c03,
     "C04": chunk.check_c04,
     "C05": chunk.check_c05,
+    "C06": pool.check_c06,
     "C08": conn.check,
     "C09": orca.check,
     "C10": fault.check,
     "C12": lin.check_c12,
+    "C13": pool.check_c13,
     "C18": metrics.check,
     "C19": ketama.check,
 }
